@@ -3,6 +3,7 @@ package main
 import (
 	"go/token"
 	"go/types"
+	"regexp"
 	"strings"
 
 	"golang.org/x/tools/go/ssa"
@@ -522,18 +523,38 @@ func hasShared(rels []Rel) bool {
 
 // c06NextExpiry: the TTL watcher wakes up at the earliest expiry of ALL watched
 // requests (a minimum with no filter), never later than one default TTL.
+var c06InitRe = regexp.MustCompile(`^\(time\.Time\)\.Add\(\(clock\.Clock\)\.Now\(param:(\w+)\.clock\), param:(\w+)\.defaultTTL\)$`)
+
 func c06NextExpiry(w *World, r *Report) {
+	// anchored by what it does, not by its name: the one place of the package that stores a
+	// loop-carried value into nextExpireAt (today recalculateNextExpireAt; the same statements
+	// inlined into their only caller are the same obligation)
+	storedIn := func(f *ssa.Function) ssa.Value {
+		var stored ssa.Value
+		for _, c := range CallsIn(f, false, "atomic.Value).Store") {
+			if strings.HasSuffix(Path(c.Common().Args[0]), ".nextExpireAt") {
+				stored = c.Common().Args[1]
+			}
+		}
+		return stored
+	}
 	f := w.Fn(pkgQProc, "RequestWatcher.recalculateNextExpireAt")
 	if f == nil {
-		r.Undec("R7", "recalculateNextExpireAt", token.NoPos, "function not found")
-		return
-	}
-	var stored ssa.Value
-	for _, c := range CallsIn(f, false, "atomic.Value).Store") {
-		if strings.HasSuffix(Path(c.Common().Args[0]), "watcher.nextExpireAt") {
-			stored = c.Common().Args[1]
+		var cands []*ssa.Function
+		for _, g := range w.lunarFns {
+			if g.Pkg != nil && g.Pkg.Pkg.Path() == pkgQProc && g.Parent() == nil && helperFor(g) == nil {
+				if _, isPhi := peel(storedIn(g)).(*ssa.Phi); isPhi {
+					cands = append(cands, g)
+				}
+			}
 		}
+		if len(cands) != 1 {
+			r.Undec("R7", "recalculateNextExpireAt", token.NoPos, "function not found (%d functions store a computed minimum into nextExpireAt)", len(cands))
+			return
+		}
+		f = cands[0]
 	}
+	stored := storedIn(f)
 	phi, ok := peel(stored).(*ssa.Phi)
 	if !ok {
 		r.Undec("R7", "recalculateNextExpireAt/stored", f.Pos(), "the value stored into nextExpireAt is not a loop-carried minimum: %s", trunc(Path(stored), 80))
@@ -545,7 +566,7 @@ func c06NextExpiry(w *World, r *Report) {
 			return false
 		}
 		n, ok := e.Tuple.(*ssa.Next)
-		return ok && strings.HasSuffix(Path(n.Iter), "range(param:watcher.requestsExpireAt)")
+		return ok && strings.HasSuffix(Path(n.Iter), ".requestsExpireAt)") && strings.Contains(Path(n.Iter), "range(param:")
 	}
 	okInit, okMin, nEntry := false, true, 0
 	var extra []string
@@ -555,6 +576,9 @@ func c06NextExpiry(w *World, r *Report) {
 		case isEntry(e):
 			nEntry++
 			for _, c := range CondsOf(phi.Block().Preds[i]) {
+				if c.If != nil && c.If.Block().Parent() == phi.Parent() && !phi.Block().Dominates(c.If.Block()) {
+					continue // decided before the loop is entered: the same for every entry
+				}
 				if x, isX := c.V.(*ssa.Extract); isX && x.Index == 0 {
 					continue // range has a next element
 				}
@@ -570,7 +594,7 @@ func c06NextExpiry(w *World, r *Report) {
 			}
 		default:
 			p := Path(e)
-			okInit = p == "(time.Time).Add((clock.Clock).Now(param:watcher.clock), param:watcher.defaultTTL)"
+			okInit = c06InitRe.MatchString(p)
 		}
 	}
 	r.Check(okInit && okMin && nEntry == 1, "R7", "recalculateNextExpireAt/minimum-over-all-entries", phi.Pos(),
@@ -726,7 +750,6 @@ func fieldBaseType(v ssa.Value) types.Type {
 	}
 	return types.Typ[types.Invalid]
 }
-
 
 // The request's wake-up latch written with a channel instead of a WaitGroup.
 // c06LatchSignal: setSignal sends once on (or closes) a channel field of the request, on every path;
